@@ -299,12 +299,24 @@ def cgr(seed, runs, maxlen):
                 emit({"ev": "pyerror", "what": "batch with a bad nucleotide did not raise"})
             except ValueError:
                 cgr_event(bad[j], size, None, "py-batch")
+            # the failed call leaves nothing behind: the same object computes the clean batch again
+            again = c.vectorise_batch(list(seqs))
+            emit({"ev": "batchlen", "n": bs, "got": len(again)})
+            for s2, pts2 in list(zip(seqs, again))[:40]:
+                cgr_event(s2, size, pts2, "py-batch-after-error")
     emit({"ev": "eof"})
 
 
 def batch(seed):
     """vectorise_batch returns exactly the per-sequence results in argument order, any batch size"""
     rng = random.Random(seed)
+    # the same string object many times, and many empty strings
+    for seqs in ([gen_string(rng, 25)] * 3000, [""] * 3000, ["ACGT", ""] * 700):
+        oc = pk.OligoComputer(3)
+        res = oc.vectorise_batch(seqs, False)
+        emit({"ev": "batchlen", "n": len(seqs), "got": len(res)})
+        for s, vals in list(zip(seqs, res))[:3] + list(zip(seqs, res))[-3:]:
+            orec(3, False, s, vals, "py-batch-repeated")
     for bs in (0, 1, 7, 1000, 5000):
         k = rng.choice([1, 2, 3, 4]) if bs > 1000 else rng.choice([2, 3, 5])
         norm = bs % 2 == 0
